@@ -514,8 +514,7 @@ pub unsafe extern "C" fn poll(fds: *mut pollfd, nfds: nfds_t, timeout: c_int) ->
     ret_sys(libc::syscall(libc::SYS_poll, fds, nfds, timeout)) as c_int
 }
 
-#[no_mangle]
-pub unsafe extern "C" fn pipe(fds: *mut c_int) -> c_int {
+unsafe fn do_pipe(fds: *mut c_int, flags: c_int) -> c_int {
     bump();
     yield_point(K_PIPE);
     if let Some(e) = account(K_PIPE) {
@@ -523,7 +522,7 @@ pub unsafe extern "C" fn pipe(fds: *mut c_int) -> c_int {
         log(K_PIPE, -1, -1, -1, e);
         return -1;
     }
-    let r = libc::syscall(libc::SYS_pipe2, fds, 0) as c_int;
+    let r = libc::syscall(libc::SYS_pipe2, fds, flags) as c_int;
     if r == 0 {
         if PIPE_REG_ON.load(Relaxed) && !IN_CHILD.load(Relaxed) {
             let mut st: libc::stat = std::mem::zeroed();
@@ -539,6 +538,16 @@ pub unsafe extern "C" fn pipe(fds: *mut c_int) -> c_int {
         log(K_PIPE, -1, -1, -1, get_errno());
     }
     r
+}
+
+#[no_mangle]
+pub unsafe extern "C" fn pipe(fds: *mut c_int) -> c_int {
+    do_pipe(fds, 0)
+}
+
+#[no_mangle]
+pub unsafe extern "C" fn pipe2(fds: *mut c_int, flags: c_int) -> c_int {
+    do_pipe(fds, flags)
 }
 
 #[no_mangle]
